@@ -45,4 +45,6 @@ MUTANTS = [
     m("c01-twin-flip-form", None, "            state_p.dir *= -1\n", "            state_p.dir = -state_p.dir\n", twin=True),
     m("c01-twin-uniform-progressive-top", None, "            accept_proposal_prob = self._weight_ratio(new_tree.weight, tree.weight)", "            accept_proposal_prob = self._weight_ratio(new_tree.weight, tree.weight)\n            _ = None", twin=True),
     m("c01-twin-accept-order", None, "        if not integration_error and rng.uniform() < accept_prob:", "        if not integration_error and accept_prob > rng.uniform():", twin=True),
+    m("c01-slice-weight-boolean", "R9", '        return (aux_vars["log_u"] <= -h) * 1', '        return aux_vars["log_u"] <= -h'),
+    m("c01-twin-slice-weight-int", None, '        return (aux_vars["log_u"] <= -h) * 1', '        return int(aux_vars["log_u"] <= -h)', twin=True),
 ]
